@@ -22,4 +22,5 @@ for l in open('/verif/properties.jsonl'):
 ")
 /venv/bin/python -m coverage report --rcfile=$W/rc --show-missing --include="$FILES" > /verif/.work/cov-$ID.txt 2>&1
 tail -3 /verif/.work/cov-$ID.txt
+mkdir -p /verif/.work/covdata; cp $W/data/.coverage /verif/.work/covdata/$ID.coverage 2>/dev/null
 rm -rf $W
